@@ -74,6 +74,18 @@ theorem C07.clear_then_empty (np : Bool) (s : St) (sid : Nat) :
     view (step np s (.clear sid)).1 sid = none := by
   exact alGet_alDel_self sid s
 
+/-- REFINEMENT (storage): the storage is a map from (stream id, sequence number) to chunks.  After any history of
+    Store / Remove / List / Clear, the chunk held under every key is what the simplest specification says
+    (`specStep`: a store overwrites that key only, a remove deletes that key only, a clear deletes that stream's
+    keys only, a list changes nothing) - so what a resume finds under a stream id is exactly the unacknowledged chunks. -/
+theorem C07.store_refines_map (np : Bool) (s : St) (ops : List Op) :
+    absGet (run np s ops) = specRun np (absGet s) ops :=
+  store_refines_map_run_lem np s ops
+
+/- non-vacuity: store, overwrite, remove and clear on two streams -/
+example : absGet (run false [] [.store 1 5 [], .store 2 5 [], .remove 1 5]) 2 5 = some [] ∧
+    absGet (run false [] [.store 1 5 [], .store 2 5 [], .remove 1 5]) 1 5 = none := by decide
+
 /-- the no-payload wrapper keeps ids, point counts and elapsed times -/
 theorem C07.no_payload_keeps_shape (gs : Groups) :
     gs.withoutPayload.map (·.id) = gs.map (·.id) ∧
